@@ -44,3 +44,40 @@ Theorem fault_current : forall d cur newh t written, commit_setting d cur newh t
 Proof.
   intros. unfold commit_io. eapply C11_disk; eauto using current_header_after_data, current_no_data_after_header.
 Qed.
+
+(* ---------- C11: the in-memory free list follows the visible header ---------- *)
+Lemma mem_consistent_repaired : forall d cur newh t written, commit_setting d cur newh t written ->
+  forall img, pre_or_post d cur newh t written img ->
+  mem_consistent img cur newh (mem_after true false img newh).
+Proof.
+  intros d cur newh t written S img H.
+  assert (Hne : h_tx cur <> h_tx newh).
+  { destruct S as [_ Htx Hlt _ _ _]. rewrite Htx. intro E. rewrite E in Hlt. apply N.lt_irrefl in Hlt. exact Hlt. }
+  unfold mem_consistent, mem_after. split; intro Hs; rewrite Hs.
+  - rewrite N.eqb_refl. reflexivity.
+  - destruct (N.eqb_spec (h_tx cur) (h_tx newh)) as [E|E]; [contradiction|reflexivity].
+Qed.
+
+Theorem fault_mem_current : forall d cur newh t written, commit_setting d cur newh t written ->
+  publish_on_visible_header = true ->
+  forall k f, let img := fault_image t newh (negb (current_slot d)) d (commit_io written) k f in
+  pre_or_post d cur newh t written img /\
+  mem_consistent img cur newh (mem_after publish_on_visible_header false img newh).
+Proof.
+  intros d cur newh t written S Hp k f img. split.
+  - apply fault_current; assumption.
+  - rewrite Hp. eapply mem_consistent_repaired; eauto. apply fault_current; assumption.
+Qed.
+
+Lemma current_publishes_on_visible : publish_on_visible_header = true.
+Proof. reflexivity. Qed.
+
+(* the pinned behaviour (publish only after full success) is inconsistent when the final sync fails *)
+Theorem fault_mem_pinned_refuted :
+  exists d cur newh t written k f, commit_setting d cur newh t written /\
+    let img := fault_image t newh (negb (current_slot d)) d (commit_io written) k f in
+    select img = Some newh /\ mem_after false false img newh = MemOld.
+Proof.
+  exists ex_d, ex_cur, ex_newh, 2%N, [4%N; 5%N], 4%nat, Applied.
+  split; [exact ex_setting|]. vm_compute. split; reflexivity.
+Qed.
